@@ -312,7 +312,7 @@ class Run:
             if b.startswith("Closed"):
                 ax_by_name[n] = []
             else:
-                ax_by_name[n] = re.findall(r"^([A-Za-z0-9_'.]+)\s*:", b, flags=re.M)
+                ax_by_name[n] = [a for a in re.findall(r"^([A-Za-z0-9_'.]+)\s*:", b, flags=re.M) if a != "Axioms"]
         for rel, n, line in names:
             axs = ax_by_name.get(n)
             detail = ""
